@@ -198,7 +198,7 @@ const (
 	PathAddRecord = iota
 	PathExtra
 	PathV2
-	PathMake // templates only: entities.MakeTemplateSet
+	PathMake // entities.MakeTemplateSet / entities.MakeDataSet (data: sets of exactly one record; otherwise AddRecord)
 )
 
 // TemplateSet builds a template set for fields through the given add path.
@@ -243,6 +243,9 @@ func Elements(fields []ref.Field, vals []ref.Value) []entities.InfoElementWithVa
 
 // DataSet builds a data set with the given records.
 func DataSet(id uint16, fields []ref.Field, recs [][]ref.Value, path int) (entities.Set, error) {
+	if path == PathMake && len(recs) == 1 && len(recs[0]) <= len(fields) {
+		return entities.MakeDataSet(id, Elements(fields[:len(recs[0])], recs[0]))
+	}
 	return DataSetInto(entities.NewSet(false), id, fields, recs, path)
 }
 
